@@ -228,6 +228,13 @@ CHECKS["C09"]["text"] += " Long run as in C08."
 CHECKS["C12"]["text"] += " Scenario S5d: two short datagrams, then a long relayed one, through one Serve loop."
 CHECKS["C17"]["text"] += " Other-plugins-option closure: the client also asks for another option x and an earlier plugin has already put x into the reply; the plugin still adds exactly its own options."
 CHECKS["C19"]["text"] += " Any-request-option closure: every accepted configuration is also driven with every other option code in seven payload shapes (no panic, reply serialises); the range graphs run the same closure."
+# ---- additions of seed round 14
+CHECKS["C01"]["text"] += " Flood: 4300 junk datagrams of four kinds (empty, one byte, four bytes, half a request) through the real Serve loop, then a well-formed request, which must still be answered. A thread that blocks in an operation outside the modelled synchronisation (channel, socket) ends the run as a deadlock."
+CHECKS["C10"]["text"] += " Many-entries files: 2..40 hosts plus a second line for one of them (last line wins) in both families."
+CHECKS["C11"]["text"] += " E2 scenarios S6/S6b: a request whose reply is dropped on the send side (layer 2 unicast without interface information / interface gone) followed by two clients in flight at once."
+CHECKS["C13"]["text"] += " Wide scenario: 1200 (thorough 6000) requests in flight at once all reach the chain and are answered as when handled one at a time."
+CHECKS["C15"]["text"] += " Binding run: listeners built by the real listen4 from listen addresses (wildcard / own address of each interface, without and with %interface) must regard themselves as bound exactly to the interface the address names; the decision table is judged on them."
+CHECKS["C16"]["text"] += " Scenarios S6/S6b (reply dropped at the send side, then two clients) and S7 (the lease time passes between a client's DISCOVER and its renewal, a new client follows). Timers made by time.AfterFunc in the instrumented code are threads of the controlled run that become enabled when the virtual clock reaches the deadline; other runtime timers are reported as a cap (exhaustive=false). Oracle added: an address promised to a client (OFFER/ACK with its lease time) is not given to another client before the promise runs out."
 ALL = ["C%02d" % i for i in range(1, 21)]
 NA_REASON = "check not built yet in this session (planned, see DESIGN.md section 5); will be claimed once its machinery exists"
 m = {
